@@ -1644,6 +1644,8 @@ package cache
 //@   oncall NewTrait [C12.new.strategy] (cfg.EvictionStrategy == EvictMostExpired ==> isBound(evict, "(*shardedMap).evictMostExpired", c))
 //@       && (cfg.EvictionStrategy != EvictMostExpired ==> isBound(evict, "(*shardedMap).evictLeastCounter", c))
 //@       && len(callarg1) == 1 && isFunc(callarg1[0], "NewShardedMap$1")
+//@   ensures [C07.new.fresh] fresh(result)
+//@   modifies new:H|* new:M|* new:E|* H|Config|* G|alloc G|cnt|go:* G|arg|go:* G|cnt|options[] G|arg|options[]|* G|res|options[]|* @log G|chanclosed
 //@   loop 1 invariant [C07.new.buckets] 0 <= i && i <= 128 && (forall j int :: 0 <= j && j < i ==> c.hashedBuckets[j].data != nil && len(c.hashedBuckets[j].data) == 0)
 //@       && (forall j int :: forall k int :: 0 <= j && j < k && k < i ==> c.hashedBuckets[j].data != c.hashedBuckets[k].data) && fresh(c)
 //@       && (forall j int :: forall h uint64 :: 0 <= j && j < i ==> !has(c.hashedBuckets[j].data, h))
@@ -1667,3 +1669,31 @@ package cache
 //@   oncall NewTraitOf [C12.new.strategy] (cfg.EvictionStrategy == EvictMostExpired ==> isBound(evict, "(*shardedMapOf[V]).evictMostExpired", c))
 //@       && (cfg.EvictionStrategy != EvictMostExpired ==> isBound(evict, "(*shardedMapOf[V]).evictLeastCounter", c))
 //@       && len(callarg1) == 1 && isFunc(callarg1[0], "NewShardedMapOf$1")
+//@   ensures [C12.new.of.fresh] fresh(result)
+//@   modifies new:H|* new:M|* new:E|* H|Config|* G|alloc G|cnt|go:* G|arg|go:* G|cnt|options[] G|arg|options[]|* G|res|options[]|* @log G|chanclosed
+
+// ---------------------------------------------------------------------------------------------------
+// Constructor of the frontend (C05 / C01): defaults, a backend, an empty key-lock map, and - unless disabled - a
+// failure cache whose entries live for FailedUpdateTTL (the window in which a failed build is not repeated).
+// ---------------------------------------------------------------------------------------------------
+//@ func NewFailover
+//@   props C05 C01
+//@   flag noC16 constructor: the object is not shared before it is returned
+//@   requires forall j int :: 0 <= j && j < len(options) ==> options[j] != nil
+//@   ensures [C05.new.defaults] result != nil && result.config.UpdateTTL != 0 && result.config.FailedUpdateTTL != 0
+//@   ensures [C05.new.backend] result.backend != nil
+//@   ensures [C05.new.errors] (result.config.FailedUpdateTTL > -1 ==> result.Errors != nil) && (result.config.FailedUpdateTTL <= -1 ==> result.Errors == nil)
+//@   ensures [C01.new.locks] result.keyLocks != nil && len(result.keyLocks) == 0
+//@   oncall NewShardedMap [C05.new.errttl] f.backend != nil ==> len(callarg0) == 1
+//@       && boundRecv(callarg0[0], "(Config).Use").TimeToLive == cfg.FailedUpdateTTL
+//@ func NewFailoverOf
+//@   props C05 C01
+//@   flag noC16 constructor: the object is not shared before it is returned
+//@   requires forall j int :: 0 <= j && j < len(options) ==> options[j] != nil
+//@   ensures [C05.new.defaults] result != nil && result.config.UpdateTTL != 0 && result.config.FailedUpdateTTL != 0
+//@   ensures [C05.new.backend] result.backend != nil
+//@   ensures [C05.new.errors] (result.config.FailedUpdateTTL > -1 ==> result.Errors != nil) && (result.config.FailedUpdateTTL <= -1 ==> result.Errors == nil)
+//@   ensures [C01.new.locks] result.keyLocks != nil && len(result.keyLocks) == 0
+//@   oncall NewShardedMapOf [C05.new.errttl] f.backend != nil ==> len(callarg0) == 1
+//@       && boundRecv(callarg0[0], "(Config).Use").TimeToLive == cfg.FailedUpdateTTL
+
